@@ -62,13 +62,15 @@ def gen_cases(ctx):
             "allow_recirculation": rng.random() < 0.4,
             "machines_per_operation": 1,
             "seed": rng.choice([0, 0, 1, 2**31 - 1] + [rng.randrange(10**6)] * 16),
-            "iteration_limit": rng.choice([None, 1, 3, 7]),
+            "iteration_limit": rng.choice([None, 0, 1, 3, 7]),
         }
         if i % 4 == 3:  # flexible
             k_hi = rng.randint(2, max(2, lo_m)) if lo_m >= 2 else 2
+            if rng.random() < 0.4 and hi_m > lo_m:
+                k_hi = rng.randint(lo_m + 1, hi_m)     # above the smallest machine count
             k_lo = rng.randint(1, k_hi)
             p["machines_per_operation"] = k_hi if rng.random() < 0.4 else [k_lo, k_hi]
-            if lo_m < k_hi:
+            if lo_m < k_hi and not (hi_m >= k_hi and hi_m > lo_m):
                 p["num_machines"] = [k_hi, k_hi + rng.choice([0, 2, 4])]
                 if flag:
                     p["num_jobs"] = [k_hi + rng.choice([0, 1]), k_hi + 5]
@@ -205,7 +207,7 @@ def run_case(ctx, case):
     from job_shop_lib.exceptions import ValidationError
     jr, mr = rng_pair(p["num_jobs"]), rng_pair(p["num_machines"])
     for which in ("machines", "jobs"):
-        val = rng.randint(max(1, kr[1]), 9)
+        val = rng.randint(max(1, kr[1]), max(9, kr[1] + 1))
         try:
             inst = (make(p).generate(num_machines=val) if which == "machines"
                     else make(p).generate(num_jobs=val))
@@ -237,9 +239,19 @@ def run_case(ctx, case):
     if p["iteration_limit"] is not None:
         ctx.count("iteration_checks")
         g3 = make(p)
-        n_a = len(list(g3)); n_b = len(list(g3))
+        try:
+            n_a = len(list(g3)); n_b = len(list(g3)); len(g3)
+        except Exception as e:
+            ctx.violation("c19_iteration_raised", {"params": p, "error": repr(e)[:200]})
+            n_a = n_b = p["iteration_limit"]
+        if p["iteration_limit"] == 0:
+            ctx.count("iteration_limit_zero")
         got_names = [i.name for i in make(p)]
-        if n_a != p["iteration_limit"] or n_b != p["iteration_limit"] or len(g3) != p["iteration_limit"]:
+        try:
+            len_ok = len(g3) == p["iteration_limit"]
+        except Exception:
+            len_ok = False
+        if n_a != p["iteration_limit"] or n_b != p["iteration_limit"] or not len_ok:
             ctx.violation("c19_iteration_count", {"params": p, "first": n_a, "second": n_b})
         if len(set(got_names)) != len(got_names):
             ctx.violation("c19_name_reused", {"params": p, "names": got_names})
